@@ -102,9 +102,15 @@ fn extract<'tcx>(tcx: TyCtxt<'tcx>) -> J {
             }
             DefKind::Const { .. } | DefKind::AssocConst { .. } | DefKind::Static { .. } => {
                 let ty = tcx.type_of(did).instantiate_identity().skip_norm_wip();
-                let val = match tcx.const_eval_poly(did) {
-                    Ok(cv) => cx.const_value(cv, ty),
-                    Err(_) => J::Null,
+                // statics are not evaluated (const_eval_poly asserts on them); generic consts fail with Err
+                let is_static = matches!(kind, DefKind::Static { .. });
+                let val = if is_static {
+                    J::Null
+                } else {
+                    match tcx.const_eval_poly(did) {
+                        Ok(cv) => cx.const_value(cv, ty),
+                        Err(_) => J::Null,
+                    }
                 };
                 consts.push(obj(vec![
                     ("path", s(tcx.def_path_str(did))),
